@@ -461,20 +461,22 @@ theorem natDone_restores (fixed : Bool) (H : Str → Str) (cfgs : List (Str × N
     · have h1 := this.1 (fun ch hc => hadm ⟨ch, hc⟩)
       rw [h1]
 
-/-- the session branch of C08's model with H = id is the `visitorLookup` label of the C20 model
-    (Frp/Model/NatHole.lean, which represents a sign key by its md5 input): same decision, same error -/
+/-- the session branch of C08's model (repaired: `fixed = true`) with H = id is the `visitorLookup`
+    label of the C20 model (Frp/Model/NatHole.lean, which represents a sign key by its md5 input and
+    now checks the allow list too): same decision, same error -/
 theorem natVisit_agrees_C20 (s : NatHole.State) (cfgs : List (Str × NatCfg)) (sess : List (Str × NatSess))
     (sid : Str) (m : NatHole.VMsg) (t : Nat) (user : Str)
     (hfresh : aget s.sessions sid = none)
-    (hcfg : ∀ n, (aget s.cfgs n).map (fun c => (c.sk, c.chan)) = (aget cfgs n).map (fun c => (c.sk, c.chan))) :
-    match (natVisit false (fun x => x) cfgs sess sid m.proxyName m.timestamp m.signed user false).2,
+    (hcfg : ∀ n, (aget s.cfgs n).map (fun c => (c.sk, c.chan, c.allow)) = (aget cfgs n).map (fun c => (c.sk, c.chan, c.allow))) :
+    match (natVisit true (fun x => x) cfgs sess sid m.proxyName m.timestamp m.signed user false).2,
           NatHole.step s (.visitorLookup sid m t user) with
     | .granted ch, some (s', o) => o = [] ∧ ∃ x, aget s'.sessions sid = some x ∧ x.phase = .notifying ch
     | .err .noListener, some (s', o) => s' = s ∧ o = [(t, NatHole.errResp m.tid .noExist)]
     | .err .authFailed, some (s', o) => s' = s ∧ o = [(t, NatHole.errResp m.tid .authFailed)]
+    | .err .notAllowed, some (s', o) => s' = s ∧ o = [(t, NatHole.errResp m.tid .notAllowed)]
     | _, _ => False := by
   have hc := hcfg m.proxyName
-  simp only [natVisit, NatHole.step, hfresh, Bool.false_eq_true, if_false, Bool.false_and, authKey]
+  simp only [natVisit, NatHole.step, hfresh, Bool.false_eq_true, if_false, Bool.true_and, authKey]
   cases h1 : aget s.cfgs m.proxyName with
   | none =>
     rw [h1] at hc
@@ -488,10 +490,15 @@ theorem natVisit_agrees_C20 (s : NatHole.State) (cfgs : List (Str × NatCfg)) (s
     | some c =>
       rw [h2] at hc
       simp only [Option.map_some, Option.some.injEq, Prod.mk.injEq] at hc
-      obtain ⟨hsk, hch⟩ := hc
-      simp only [hsk]
+      obtain ⟨hsk, hch, hal⟩ := hc
+      simp only [hsk, hal]
       by_cases hk : m.signed = authInput c.sk m.timestamp
-      · simp [hk, aget_aput, hch]
+      · by_cases ha : allowedB c.allow user = true
+        · have ha' : NatHole.userAllowed c.allow user = true := by simpa [allowedB, NatHole.userAllowed] using ha
+          simp [hk, ha, ha', aget_aput, hch]
+        · have ha' : NatHole.userAllowed c.allow user = false := by
+            simpa [allowedB, NatHole.userAllowed] using ha
+          simp [hk, ha, ha']
       · simp [hk]
 
 /-! ## §3 every history -/
